@@ -166,11 +166,16 @@ func writeString(w io.Writer, s string) error {
 }
 
 // readString reads a length-prefixed string from a reader
-func readString(r io.Reader) (string, error) {
+func readString(r *bytes.Reader) (string, error) {
 	// Read string length
 	var length uint32
 	if err := binary.Read(r, binary.LittleEndian, &length); err != nil {
 		return "", err
+	}
+
+	// A length that exceeds what is left is a truncated input: say so before allocating
+	if int64(length) > int64(r.Len()) {
+		return "", io.ErrUnexpectedEOF
 	}
 
 	// Read string data
@@ -289,6 +294,9 @@ func deserializeBinaryFormat(data []byte) (*CompiledTemplate, error) {
 		return nil, fmt.Errorf("failed to read AST length: %w", err)
 	}
 
+	if int64(astLength) > int64(r.Len()) {
+		return nil, fmt.Errorf("failed to read AST data: %w", io.ErrUnexpectedEOF)
+	}
 	compiled.AST = make([]byte, astLength)
 	if _, err := io.ReadFull(r, compiled.AST); err != nil {
 		return nil, fmt.Errorf("failed to read AST data: %w", err)
